@@ -15,6 +15,7 @@ import (
 // repoRoot: the tree under test. Registered checks always use /repo; VERIF_REPO_ROOT points the
 // machinery at a scratch copy (used only for measuring detection of seeded changes).
 var repoRoot = "/repo"
+var scratchDir = ""
 
 func setupRepoRoot() {
 	r := os.Getenv("VERIF_REPO_ROOT")
@@ -23,7 +24,8 @@ func setupRepoRoot() {
 	}
 	repoRoot = r
 	// a module directory whose replace directive points at the scratch copy
-	md := filepath.Join(r, ".verif_mod")
+	scratchDir = filepath.Join(os.TempDir(), "verif_scratch_"+filepath.Base(r))
+	md := filepath.Join(scratchDir, "mod")
 	os.MkdirAll(md, 0o755)
 	gm, _ := os.ReadFile(filepath.Join(sym.ModDir, "go.mod"))
 	os.WriteFile(filepath.Join(md, "go.mod"), []byte(strings.ReplaceAll(string(gm), "=> /repo", "=> "+r)), 0o644)
@@ -109,6 +111,7 @@ func cmdRun(args []string) {
 	maporder := fs.String("maporder", "insertion", "map order policy")
 	hdir := fs.String("harness-dir", "/verif/harness", "harness dir")
 	noint := fs.Bool("no-int", false, "disable integer mode")
+	native := fs.Bool("native", false, "replay violations natively")
 	prefix := fs.String("prefix", "", "DFS prefix")
 	fs.Parse(args)
 	var iargs []int
@@ -127,10 +130,27 @@ func cmdRun(args []string) {
 		fmt.Println(err)
 		os.Exit(2)
 	}
-	res := sym.RunJob(p, sym.Job{Pkg: full, Harness: *harness, Args: iargs, Prefix: parseInts(*prefix), Cfg: sym.JobConfig{NoMerge: *nomerge, NoIntMode: *noint, MapOrder: *maporder, SampleEvery: 1, MaxSamples: 3}}, *solver, 60000)
+	knownOpen, _ := loadKnown()
+	res := sym.RunJob(p, sym.Job{Pkg: full, Harness: *harness, Args: iargs, Prefix: parseInts(*prefix), Cfg: sym.JobConfig{KnownOpen: knownOpen, NoMerge: *nomerge, NoIntMode: *noint, MapOrder: *maporder, SampleEvery: 1, MaxSamples: 3}}, *solver, 60000)
 	res.Functions = nil
 	out, _ := json.MarshalIndent(res, "", " ")
 	fmt.Println(string(out))
+	if *native {
+		wd := "/tmp/gosym_run_work"
+		os.RemoveAll(wd)
+		os.MkdirAll(wd, 0o755)
+		var files []string
+		for _, v := range res.Violations {
+			vec := replayVector{Harness: v.Harness, Pkg: full, Args: v.Args, Values: v.Model, Choices: v.Choices}
+			vec.Expect.Kind, vec.Expect.ID = v.Kind, v.ID
+			files = append(files, writeVector(wd, vec))
+		}
+		rs, err := runNative(wd, full, files)
+		fmt.Fprintln(os.Stderr, "native:", err)
+		for f, r := range rs {
+			fmt.Fprintf(os.Stderr, "native %s: failed=%v panic=%q assume_failed=%v\n", f, r.Failed, r.Panic, r.AssumeFailed)
+		}
+	}
 }
 
 func parseInts(s string) []int {
